@@ -111,6 +111,7 @@ class Exec:
         if name in BUILTIN_EXC: return BuiltinExcClass(name)
         if name in BUILTINS: return BuiltinRef(name)
         if name in ("True", "False", "None"): return {"True": True, "False": False, "None": None}[name]
+        if name == "__debug__": return True
         raise Unsupported("name %s in %s" % (name, mod.name))
 
     def real_constant(self, mod, name):
@@ -533,8 +534,11 @@ class Exec:
         la, lb = lift(a), lift(b)
         if la.ty.kind == "str" and lb.ty.kind == "str" and isinstance(op, ast.Add):
             yield st, Sym(STR, z3.Concat(la.z, lb.z)); return
-        if la.ty.kind == "str" and isinstance(op, ast.Mult):
-            raise Unsupported("str * symbolic int")
+        if la.ty.kind == "str" and lb.ty.kind == "int" and isinstance(op, ast.Mult):
+            # s * n: uninterpreted repetition with its length (A-STR)
+            rep = self.absfun_s("str_repeat", [z3.StringSort(), z3.IntSort()], z3.StringSort())(la.z, lb.z)
+            st.pc.append(z3.And(z3.Length(rep) == z3.If(lb.z > 0, lb.z * z3.Length(la.z), 0), z3.Implies(lb.z <= 0, rep == z3.StringVal(""))))
+            yield st, Sym(STR, rep); return
         if la.ty.kind in ("int", "real") and lb.ty.kind in ("int", "real"):
             ty = REAL if "real" in (la.ty.kind, lb.ty.kind) else INT
             if isinstance(op, ast.Add): yield st, Sym(ty, la.z + lb.z); return
@@ -699,6 +703,10 @@ class Exec:
         st.ghost["yielded"] = st.ghost["yielded"] + [v]
         hook = getattr(self, "yield_hook", None)
         if hook: hook(st, v)
+        if getattr(self, "model_abandon", False):
+            # the consumer may close the generator here: GeneratorExit is raised at the yield point (finally / with blocks run as in CPython)
+            sb = st.copy(); sb.ghost["abandoned"] = True
+            yield sb, ("raise", self.new_builtin_exc(sb, "GeneratorExit", []))
         yield st, ("next",)
 
     def st_Assert(self, node, st):
@@ -866,8 +874,44 @@ class Exec:
             else:
                 yield from run_finally(s, ctl)
 
+    def _ctx_call(self, st, obj, name, args):
+        """call obj.<name>(*args) for a context manager; objects without such a method: __enter__ -> obj, __exit__ -> close() if modelled, else nothing"""
+        if isinstance(obj, Ref):
+            c = self.contracts.get("ref:%s.%s" % (obj.cls, name))
+            cls = S.find_class(obj.cls)
+            if c is not None or (cls is not None and S.lookup_method(cls, name)[1] is not None):
+                for s2, m in self.getattr(st, obj, name):
+                    if isinstance(m, Raise): yield s2, m; continue
+                    yield from self.call(s2, m, list(args), {})
+                return
+            if name == "__exit__" and (self.contracts.get("ref:%s.close" % obj.cls) is not None or (cls is not None and S.lookup_method(cls, "close")[1] is not None)):
+                for s2, m in self.getattr(st, obj, "close"):
+                    for s3, r in self.call(s2, m, [], {}): yield s3, (r if isinstance(r, Raise) else None)
+                return
+        yield st, (obj if name == "__enter__" else None)
+
     def st_With(self, node, st):
-        raise Unsupported("with")
+        if len(node.items) != 1:
+            inner = ast.With(items=node.items[1:], body=node.body); ast.copy_location(inner, node)
+            outer = ast.With(items=node.items[:1], body=[inner]); ast.copy_location(outer, node)
+            yield from self.st_With(outer, st); return
+        item = node.items[0]
+        for s, cm in self.ev(item.context_expr, st):
+            if isinstance(cm, Raise): yield s, ("raise", cm.exc); continue
+            for s1, entered in self._ctx_call(s, cm, "__enter__", []):
+                if isinstance(entered, Raise): yield s1, ("raise", entered.exc); continue
+                if item.optional_vars is not None:
+                    for s1b, _ in self.assign(s1, item.optional_vars, entered): pass
+                for s2, ctl in self.exec_block(node.body, s1):
+                    if ctl[0] == "raise":
+                        for s3, r in self._ctx_call(s2, cm, "__exit__", [TypeOf(ctl[1]), ctl[1], None]):
+                            if isinstance(r, Raise): yield s3, ("raise", r.exc); continue
+                            t = self.truth(r) if r is not None else False
+                            if isinstance(t, Sym): raise Unsupported("symbolic __exit__ result")
+                            yield s3, (("next",) if t else ctl)
+                    else:
+                        for s3, r in self._ctx_call(s2, cm, "__exit__", [None, None, None]):
+                            yield s3, (("raise", r.exc) if isinstance(r, Raise) else ctl)
 
     def st_FunctionDef(self, node, st):
         fr = st.frames[-1]
